@@ -26,6 +26,30 @@ Theorem C15_verified_unless_disabled :
 Proof. exact verified_unless_disabled. Qed.
 Print Assumptions C15_verified_unless_disabled.
 
+(* MAIN with the trust-store selection of create_proxy_server_context: the root the chain ends in is a
+   CONFIGURED trusted CA -- a member of the CA file or of the CA directory when either option is set, a
+   member of the bundled default file only when neither is. *)
+Theorem C15_verified_by_configured_ca :
+  forall i tc chain now eng seg hs_step send_app recv_app got_shutdown start_conn cst child_step c b es,
+  openssl_verifies i (loaded_trust tc) chain now eng seg hs_step send_app recv_app start_conn ->
+  ssl_insecure i = false ->
+  usable eng seg hs_step send_app recv_app got_shutdown start_conn cst child_step c b es ->
+  exists t leaf extra n r,
+    target_of i t /\ chain = leaf :: extra
+    /\ valid_path (loaded_trust tc) extra now n leaf 0%N /\ time_ok now leaf = true /\ name_ok leaf t = true
+    /\ configured_root tc r /\ self_issued r = true /\ time_ok now r = true.
+Proof. exact verified_by_configured_ca. Qed.
+Print Assumptions C15_verified_by_configured_ca.
+
+Theorem C15_loaded_trust_configured : forall tc r, In r (loaded_trust tc) <-> configured_root tc r.
+Proof. exact loaded_trust_configured. Qed.
+Print Assumptions C15_loaded_trust_configured.
+
+Theorem C15_default_bundle_ignored : forall f d def1 def2,
+  (f <> None \/ d <> None) -> loaded_trust (mkTc f d def1) = loaded_trust (mkTc f d def2).
+Proof. exact default_bundle_ignored. Qed.
+Print Assumptions C15_default_bundle_ignored.
+
 (* contrapositive, in the form of the statement: a chain that does not verify is never usable, so no
    application data is ever sent to that server *)
 Theorem C15_unverifiable_never_usable :
